@@ -149,7 +149,7 @@ var hostileAttrs = strings.Fields(`onabort onafterprint onanimationend onanimati
 
 var hostileValues = []string{
 	"x", "javascript:alert(1)", "http://e.x/", "data:text/html,<script>alert(1)</script>", "\" onmouseover=\"alert(1)",
-	"&#106;avascript:alert(1)", "expression(alert(1))",
+	"&#106;avascript:alert(1)", "expression(alert(1))", "shttp://e.x/", "mailtox:a@e.x", "web+https://e.x/x", "xmailto:a",
 }
 
 var xssFrags = []string{
